@@ -1,6 +1,5 @@
 import Pcore.Model.DescribeSig
 import Pcore.Proofs.Describe
-import Pcore.Proofs.DescribeCallable
 set_option linter.unusedSimpArgs false
 set_option linter.unusedVariables false
 /-!
@@ -113,28 +112,21 @@ theorem sigFinish_ok (ea : List (List Mismatch)) : ∀ k, sigFinish ea ≠ .faul
   | [d] => simp
   | d :: d' :: r' => simp
 
-theorem describeBlk_ok (eb : Blk) (ab : CT) (p : Path) : ∃ r, describeBlk cfg sfh eb ab p = .ok r := by
-  unfold describeBlk
-  simp only []
-  split
-  · exact ⟨_, rfl⟩
-  · obtain ⟨r, hr⟩ := describeCallableType_ok cfg sfh ⟨eb.2.params, eb.2.ret, none⟩ (.callable ab) p
-    rw [hr]
-    cases r with
-    | nil => exact ⟨_, rfl⟩
-    | cons d ds => exact ⟨_, rfl⟩
-
-theorem sigBlock_ok (sg : Sig) (blk : Option CT) (path : Path) : ∃ r, sigBlock cfg sfh sg blk path = .ok r := by
+theorem sigBlock_ok (sg : Sig) (blk : Option Ty) (path : Path) : ∃ r, sigBlock cfg sfh sg blk path = .ok r := by
   unfold sigBlock
   cases blk with
-  | none => simp only []; split <;> exact ⟨_, rfl⟩
+  | none =>
+    simp only []
+    split
+    · exact ⟨_, rfl⟩
+    · split <;> exact ⟨_, rfl⟩
   | some ab =>
     simp only []
     split
     · exact ⟨_, rfl⟩
-    · exact describeBlk_ok cfg sfh _ _ _
+    · exact describe_ok cfg sfh _ _ _
 
-theorem sigAllBlocks_ok (blk : Option CT) (sigs : List Sig) (ix : Nat) : ∃ r, sigAllBlocks cfg sfh blk sigs ix = .ok r := by
+theorem sigAllBlocks_ok (blk : Option Ty) (sigs : List Sig) (ix : Nat) : ∃ r, sigAllBlocks cfg sfh blk sigs ix = .ok r := by
   induction sigs generalizing ix with
   | nil => exact ⟨_, rfl⟩
   | cons sg rest ih =>
@@ -144,7 +136,7 @@ theorem sigAllBlocks_ok (blk : Option CT) (sigs : List Sig) (ix : Nat) : ∃ r, 
     exact ⟨_, rfl⟩
 
 /-- NO FAULT for a call that respects the contract, with or without a block -/
-theorem describeSignatures_total (sigs : List Sig) (args : Ty) (blk : Option CT) (hs : ∀ sg ∈ sigs, SigOK sg) (ha : ArgsOK args) :
+theorem describeSignatures_total (sigs : List Sig) (args : Ty) (blk : Option Ty) (hs : ∀ sg ∈ sigs, SigOK sg) (ha : ArgsOK args) :
     ∀ k, describeSignatures cfg sfh sigs args blk ≠ .fault k := by
   intro k
   obtain ⟨argErrs, he⟩ := sigAllArgs_ok cfg sfh args ha sigs hs 0
